@@ -225,6 +225,9 @@ def KOf (G : GCtx) (pi : PInfo) (sp dep : Nat) (hi : Nat → Word) : PCtx :=
     loc := G.locOf pi sp, consts := G.consts, nlocals := pi.p.locals.length, hi := hi,
     gnames := G.gnames ++ G.pnames, dep := dep, abase := G.abase, asize := G.asize, strs := G.strs }
 
+/-- The word that stands for a value (`VRepOf`), in the program context. -/
+abbrev GCtx.VRep (G : GCtx) : Val → Word → Prop := VRepOf G.env G.abase G.strs
+
 /-- The pool of the whole program. -/
 def GCtx.items (G : GCtx) : List PoolItem :=
   (G.consts.map fun e => PoolItem.const e.1 e.2) ++ (G.strs.map fun e => PoolItem.str e.1 e.2)
@@ -308,8 +311,8 @@ structure GCtx.OK (G : GCtx) : Prop where
     state of the reference semantics in memory; or it terminates the program. -/
 def CallSpec (G : GCtx) (fuel : Nat) : Prop :=
   ∀ pi ∈ G.procs, ∀ (vs : List Val) (st : X.St) (lnk b : Word) (mem : Mem) (spc : Nat) (k : Nat) (kind : LabelKind) (n : String),
-    GRep G st mem → mem.read 1 = BitVec.ofNat 32 spc → (∀ v ∈ vs, okV v = true) →
-    (∀ j (hj : j < vs.length), mem.read (spc + pi.po + j) = wordOf G.abase vs[j]) →
+    GRep G st mem → mem.read 1 = BitVec.ofNat 32 spc →
+    (∀ j (hj : j < vs.length), G.VRep vs[j] (mem.read (spc + pi.po + j))) →
     G.spv ≤ spc + st.depth * G.smax → spc + pi.po + vs.length ≤ G.spv + 1 → G.lo ≤ spc →
     G.env.ds[k]? = some (.label kind n) → G.env.addr k = lnk.toNat →
     match X.callUser fuel G.xc pi.p vs st with
